@@ -56,9 +56,9 @@ BASE_CONSTANTS = {
     "G_LeaderFlush": "TRUE", "G_StaleTermAppend": "TRUE",
     "G_ConfigCommittedFirst": "TRUE", "G_OwnTermBeforeConfig": "TRUE", "G_PromoteAfterRound": "TRUE",
     "G_NonVoterNoElection": "TRUE", "G_StepDownWhenDemoted": "TRUE",
-    "G_XferCaughtUp": "TRUE", "G_XferBlocksEntries": "TRUE", "G_XferSuccessOnHigherTerm": "TRUE", "G_CommitMonotone": "TRUE",
+    "G_XferCaughtUp": "TRUE", "G_XferBlocksEntries": "TRUE", "G_XferSuccessOnHigherTerm": "TRUE", "G_CommitMonotone": "TRUE", "G_ReadAfterCommit": "TRUE",
     "MaxRoundOrd": 3, "SegSize": 1024, "UpdBytes": 300, "MaxSnaps": 0, "FixD4": "TRUE", "FixD5": "TRUE", "FixD11": "TRUE", "FixD3": "TRUE", "FixD13": "TRUE", "RoundFastSet": "{TRUE}", "MaxCfgReqs": 0, "EdAddPromote": "{}", "EdAddNonvoter": "{}", "EdPromote": "{}", "EdDemote": "{}", "EdRemove": "{}", "EdForceRemove": "{}",
-    "FixD1": "TRUE", "FixD2": "TRUE", "FixD19": "TRUE", "FixD20": "TRUE", "FixD14": "TRUE", "MaxXfers": 0, "MaxXferTries": 2, "XferTargets": "{None}", "ClientOps": '{"update"}', "NetFaults": "FALSE",
+    "FixD1": "TRUE", "FixD2": "TRUE", "FixD19": "TRUE", "FixD20": "TRUE", "FixD14": "TRUE", "MaxXfers": 0, "MaxXferTries": 2, "XferTargets": "{None}", "ClientOps": '{"update"}', "NetFaults": "FALSE", "TrackClients": "FALSE",
 }
 
 
@@ -358,7 +358,7 @@ PAR = max(1, NCPU // 2)
 
 
 def _obs_one(records, workdir, timeout):
-    cfg = "CONSTANTS None = 0\nINIT Init\nNEXT Next\nINVARIANT Report\n"
+    cfg = "CONSTANTS None = 0\n TrackClients = TRUE\nINIT Init\nNEXT Next\nINVARIANT Report\n"
     r = tlc(workdir, "RaftObs", cfg, args=["-workers", "1"], timeout=timeout, env={"VERIF_TRACE": records}, name="RaftObs", heap="3g")
     m = re.search(r'<<"OBS-RESULT", "(.*)", (\d+)>>', r["out"])
     if not m:
@@ -390,7 +390,7 @@ _obs_seq = 0
 # ---------------------------------------------------------------- trace validation (T)
 TRACE_CONSTS = {"None": "0", "MaxTerm": 100000, "MaxLog": 100000, "MaxCmds": 100000, "MaxCrash": 100000, "MaxInflight": 100000,
                 "MaxElections": 100000, "Orphans": "TRUE", "Reduce": "FALSE", "KeepHist": "FALSE",
-                "MaxRoundOrd": 100000, "MaxCfgReqs": 100000, "MaxSnaps": 100000, "RoundFastSet": "{TRUE, FALSE}", "MaxXfers": 100000, "MaxXferTries": 100000, "NetFaults": "TRUE"}
+                "MaxRoundOrd": 100000, "MaxCfgReqs": 100000, "MaxSnaps": 100000, "RoundFastSet": "{TRUE, FALSE}", "MaxXfers": 100000, "MaxXferTries": 100000, "NetFaults": "TRUE", "TrackClients": "TRUE"}
 
 
 def _trace_one(records, workdir, sched0, timeout=900, max_drifts=4):
